@@ -63,6 +63,27 @@ def regen():
     return p.returncode == 0, out
 
 
+def gen_closure(targets):
+    """names of the generated modules (EEM.Gen.X -> X) in the import closure of the given Lean modules"""
+    import re
+    seen, todo, gens = set(), list(targets), set()
+    while todo:
+        m = todo.pop()
+        if m in seen:
+            continue
+        seen.add(m)
+        if m.startswith("EEM.Gen."):
+            gens.add(m.split(".")[-1])
+        path = os.path.join(LEAN, *m.split(".")) + ".lean"
+        if not os.path.exists(path):
+            continue
+        for line in open(path):
+            mm = re.match(r"\s*import\s+(EEM[\w.]*)", line)
+            if mm:
+                todo.append(mm.group(1))
+    return gens
+
+
 # --------------------------------------------------------------------------- Lean build / audit
 def lake_build(targets, timeout=3000):
     p = subprocess.run(["lake", "build", *targets], cwd=LEAN, capture_output=True, text=True, timeout=timeout)
